@@ -7,7 +7,9 @@ import os
 import shutil
 import stat
 
-TIMES = {1: 1500000000, 2: 1600000000}
+# concrete timestamps for the model's two mtime ids; the variants put boundary values (the epoch, sub-second parts) on either id
+TIME_VARIANTS = [{1: 1500000000, 2: 1600000000}, {1: 0, 2: 1600000000.5}, {1: 1.25, 2: 0}]
+TIMES = dict(TIME_VARIANTS[0])
 CONTENT = {0: b"aaaa", 1: b"bbbb", 2: b"cccccc"}
 LINKTXT = {"rel_inside": "sibling", "rel_up": "../up", "dangling": "nonexistent/x", "abs_outside": "/etc/hostname"}
 
@@ -50,7 +52,7 @@ def observe(path, root):
     with open(path, "rb") as f:
         data = f.read()
     cid = [k for k, v in CONTENT.items() if v == data]
-    mt = [k for k, v in TIMES.items() if v == int(st.st_mtime)]
+    mt = [k for k, v in TIMES.items() if v == st.st_mtime]
     return ["file", cid[0] if cid else 9, stat.S_IMODE(st.st_mode), mt[0] if mt else 0]
 
 
@@ -70,6 +72,8 @@ def run_case(gw, base, case):
     """case: {src, dst, del, cwd, sibling}; returns the case extended with the observations"""
     from execnet.rsync import RSync
 
+    TIMES.clear()
+    TIMES.update(TIME_VARIANTS[case.get("tv", 0)])
     shutil.rmtree(base, ignore_errors=True)
     srcroot, dstroot, elsewhere = os.path.join(base, "src"), os.path.join(base, "dst"), os.path.join(base, "cwd")
     for d in (srcroot, dstroot, elsewhere):
